@@ -666,7 +666,8 @@ var stateWriters = []stateWriter{
 	{"getoptions", "programTree", "Parent", map[string]string{},
 		map[string]string{"C11": "the help command answers for the level it was declared on (its Parent never changes)", "C17": "the level reached is a node of the declared tree"}},
 	{"getoptions", "programTree", "HelpCommandName", map[string]string{"(*getoptions.GetOpt).HelpCommand$": "any"},
-		map[string]string{"C11": "the name that selects the built-in help is the one given to HelpCommand", "C18": "command lists skip exactly the help command"}},
+		map[string]string{"C11": "the name that selects the built-in help is the one given to HelpCommand", "C18": "command lists skip exactly the help command",
+			"C17": "the option copy skips exactly the built-in help command: every other command is offered the inherited options"}},
 	{"getoptions", "programTree", "Suggestions", map[string]string{"(*getoptions.GetOpt).ArgCompletions": "param"},
 		map[string]string{"C17": "the static argument suggestions are the ones given to ArgCompletions"}},
 	{"getoptions", "programTree", "UnknownOptions", map[string]string{"getoptions.parseCLIArgs": "any"},
@@ -686,7 +687,8 @@ var stateWriters = []stateWriter{
 	{"option", "Option", "Aliases", map[string]string{"(*option.Option).SetAlias": "any"},
 		map[string]string{"C05": "the names an abbreviation is matched against are the declared ones", "C17": "the names offered are the declared ones"}},
 	{"option", "Option", "Called", map[string]string{"(*option.Option).SetCalled": "any", "(*getoptions.GetOpt).SetCalled$": "any", "getoptions.parseCLIArgs": "any"},
-		map[string]string{"C06": "Called is true exactly for options met on the command line (or marked by SetCalled / the environment)", "C12": "Called distinguishes command line, environment and default"}},
+		map[string]string{"C06": "Called is true exactly for options met on the command line (or marked by SetCalled / the environment)", "C12": "Called distinguishes command line, environment and default",
+			"C09": "nothing behind the require-order stop marks an option called: only the parser, which stops there, does", "C04": "nothing behind the terminator marks an option called: only the parser, which stops there, does"}},
 	{"option", "Option", "UsedAlias", map[string]string{"(*option.Option).SetCalled": "any", "getoptions.parseCLIArgs": "any"},
 		map[string]string{"C06": "CalledAs reports the spelling the parser met"}},
 	{"option", "Option", "IsRequired", map[string]string{"(*option.Option).SetRequired": "const"},
@@ -723,7 +725,7 @@ var stateWriters = []stateWriter{
 
 func init() {
 	ids := map[string]string{"C01": "R01.16", "C02": "R02.14", "C03": "R03.14", "C05": "R05.12", "C06": "R06.14", "C07": "R07.11", "C08": "R08.14", "C10": "R10.13",
-		"C11": "R11.16", "C12": "R12.10", "C13": "R13.12", "C14": "R14.11", "C15": "R15.9", "C16": "R16.14", "C17": "R17.13", "C18": "R18.15", "C19": "R19.9"}
+		"C11": "R11.16", "C12": "R12.10", "C13": "R13.12", "C14": "R14.11", "C15": "R15.9", "C16": "R16.14", "C17": "R17.13", "C18": "R18.15", "C19": "R19.9", "C09": "R09.14", "C04": "R04.16"}
 	for prop, id := range ids {
 		prop, id := prop, id
 		addRules(prop, func(w *World, r *Report) { rStateWriters(w, r, prop, id) })
